@@ -170,6 +170,15 @@ pub fn receive_cw20(
                 return Err(ContractError::Unauthorized {});
             }
 
+            // the offered asset must be the cw20 token that sent this hook;
+            // otherwise the token received would be priced as the other asset
+            let sent_asset_info = AssetInfo::Token {
+                contract_addr: info.sender.to_string(),
+            };
+            if !offer_asset.info.equal(&sent_asset_info) {
+                return Err(ContractError::AssetMismatch {});
+            }
+
             let to_addr = if let Some(to_addr) = to {
                 Some(deps.api.addr_validate(to_addr.as_str())?)
             } else {
